@@ -390,7 +390,17 @@ class Quantity:
                 else:
                     return False
 
-        return math.isclose(self.value, other.value * other_to_self_scale)
+        try:
+            return math.isclose(self.value, other.value * other_to_self_scale)
+        except OverflowError:
+            # Values too large to be converted to a float: apply the same
+            # (relative) tolerance using exact arithmetic instead.
+            try:
+                a = Fraction(self.value)
+                b = Fraction(other.value) * Fraction(other_to_self_scale)
+            except (OverflowError, ValueError):  # Infinite/NaN float
+                return False
+            return abs(a - b) <= Fraction(1, 10**9) * max(abs(a), abs(b))
 
     def scale(self, factor: Union[int, float, Fraction]) -> "Quantity":
         return replace(self, value=self.value * factor)
